@@ -544,8 +544,59 @@ func genConformance(c *hmain.Ctx) {
 	}
 }
 
+// ---- wide objects: more than 100 fields to drop at one depth (the per-depth delete buffers of keep_fields start with
+// capacity 100), before / after / between nested objects addressed by nested selectors that drop fields themselves
+func genWide(c *hmain.Ctx) {
+	r := c.R.Fork()
+	str := func(s string) *jv { return &jv{kind: 3, s: s} }
+	for i := 0; i < 40*c.Scale; i++ {
+		var mkLevel func(depth int, path string) *jv
+		var sels []string
+		mkLevel = func(depth int, path string) *jv {
+			o := &jv{kind: 5}
+			nJunk := r.Range(95, 135)
+			if depth > 0 && r.Bool() {
+				nJunk = r.Range(0, 6)
+			}
+			// positions of the real fields among the junk
+			real := []string{"meta", "trace", "id"}
+			pos := map[int]string{}
+			for _, k := range real {
+				pos[r.Intn(nJunk+1)] = k
+			}
+			for j := 0; j <= nJunk; j++ {
+				if k, ok := pos[j]; ok {
+					full := k
+					if path != "" {
+						full = path + "." + k
+					}
+					if k == "meta" && depth < 2 {
+						o.keys, o.vals = append(o.keys, k), append(o.vals, mkLevel(depth+1, full))
+					} else {
+						o.keys, o.vals = append(o.keys, k), append(o.vals, str("v-"+full))
+						if r.Chance(2, 3) {
+							sels = append(sels, full)
+						}
+					}
+				}
+				if j < nJunk {
+					o.keys, o.vals = append(o.keys, "j"+itoa(depth)+"_"+itoa(j)), append(o.vals, str("junk"))
+				}
+			}
+			return o
+		}
+		ev := mkLevel(0, "")
+		if len(sels) == 0 {
+			sels = []string{"meta.id"}
+		}
+		c.W.Count("wide:selectors=" + itoa(len(sels)))
+		both(c, "wide", sels, ev)
+	}
+}
+
 func gen(c *hmain.Ctx) {
 	genExhaustive(c)
+	genWide(c)
 	genRandom(c)
 	genAdversarial(c)
 	genParser(c)
